@@ -389,7 +389,9 @@ def run(tier):
         tlc_ok(tres, "Trace_C13")
     rep.add_tlc(tres)
     py_rejected = consistent_queries != sum(1 for ln in open(trace_path) if '"reset"' in ln)
-    if rejected != py_rejected:
+    if rejected != py_rejected and not rep.violations:
+        # (with violations already recorded the candidate set of the driver is empty for reasons the trace, which only
+        # carries the ranking-dependent pairs, cannot see: the violations decide)
         raise common.ToolError("Trace_C13 (%s) and the driver (%s) disagree on the acceptance of %s" % (
             "rejected" if rejected else "accepted", "rejected" if py_rejected else "accepted", trace_path))
     if rejected and not rep.violations and not rep.known_hits:
